@@ -227,6 +227,9 @@ def enc_body(enc, fields, vals, o, drop=None, fieldmut=None):
         if f.skip: continue
         if drop is not None and pos == drop: continue
         tag = f.tag
+        if fieldmut is not None and fieldmut[0] == pos and fieldmut[1] == "raw":
+            pieces.append((f.idx, enc_tag(tag, o) + fieldmut[2], False))           # the field's value replaced by the given bytes
+            continue
         if fieldmut is not None and fieldmut[0] == pos:
             tag = None if fieldmut[1] == "missing" else f.tag ^ 1
         pieces.append((f.idx, enc_tag(tag, o) + enc_field_value(f, v, o), absent(f, v)))
@@ -270,6 +273,8 @@ def py_encode(ty, v, o=None, mut=None):
         if mut and mut[0] == "tag": tag = None if mut[1] == "missing" else ty.tag ^ 1
         drop = mut[1] if mut and mut[0] == "drop" else None
         fm = (mut[1], mut[2]) if mut and mut[0] == "ftag" else None
+        if mut and mut[0] == "inner":
+            fm = inner_mut(ty.fields, v[1], mut, o)
         return enc_tag(tag, o) + enc_body(eff_enc(ty.enc), ty.fields, v[1], o, drop, fm)
     if k == "en":
         var = ty.variants[v[1]]
@@ -282,6 +287,8 @@ def py_encode(ty, v, o=None, mut=None):
         enc = eff_enc(var.enc, ty.enc)
         drop = mut[1] if mut and mut[0] == "drop" else None
         fm = (mut[1], mut[2]) if mut and mut[0] == "ftag" else None
+        if mut and mut[0] == "inner":
+            fm = inner_mut(var.fields, v[2], mut, o)
         if var.shape == "u":
             # the empty payload of a unit variant is re-framed like every other container (the decoder skips it, whatever its framing)
             maj = 4 if enc == "a" else 5
@@ -293,6 +300,16 @@ def py_encode(ty, v, o=None, mut=None):
             return enc_tag(tag, o) + b"\x9f" + head(0, idx, o) + enc_tag(vtag, o) + body + b"\xff"
         return enc_tag(tag, o) + head(4, 2, o) + head(0, idx, o) + enc_tag(vtag, o) + body
     raise ValueError(k)
+
+
+def inner_mut(fields, vals, mut, o):
+    """('inner', pos, m): the value of the field at `pos` (a struct / enum, possibly behind an Option, which is present) is encoded with the
+    mutation m applied to it; as a `raw` field mutation for enc_body."""
+    f, x = fields[mut[1]], vals[mut[1]]
+    t = f.ty
+    if t.kind == "opt":
+        t, x = t.e, x[1]
+    return (mut[1], "raw", py_encode(t, x, o, mut[2]))
 
 
 def null_clash(ty, v):
